@@ -545,11 +545,14 @@ class CurvatureCorrection(darsia.BaseCorrection):
 
         """
         # Precompute transformed coordinates based on self.config, if required.
-        if (
-            not (self.use_cache and self.cache_path.exists())
-            and "grid" not in self.cache
+        # NOTE: The transformed coordinates depend on the shape of the input array; an
+        # in-memory cache computed for another shape is therefore not reused.
+        if not (self.use_cache and self.cache_path.exists()) and (
+            "grid" not in self.cache
+            or self.cache.get("input_shape") != tuple(img.shape[:2])
         ):
             self._precompute_transformed_coordinates(img)
+            self.cache["input_shape"] = tuple(img.shape[:2])
 
             # Store in cache
             if self.use_cache:
